@@ -37,7 +37,6 @@ import (
 
 	itutiltypes "github.com/EscanBE/evermint/v12/integration_test_util/types"
 	cpcabi "github.com/EscanBE/evermint/v12/x/cpc/abi"
-	"github.com/EscanBE/evermint/v12/x/cpc/eip712"
 	cpctypes "github.com/EscanBE/evermint/v12/x/cpc/types"
 	evmtypes "github.com/EscanBE/evermint/v12/x/evm/types"
 	feemarkettypes "github.com/EscanBE/evermint/v12/x/feemarket/types"
@@ -118,11 +117,11 @@ func newTwin(t *testing.T) *twin {
 	for i := 0; i < 3; i++ {
 		tw.actors = append(tw.actors, tw.A.DetAccount("actor", i))
 	}
-	for i, n := range []string{"pcall", "pdeleg", "pcc", "pdd", "px", "pcd", "pstatic"} {
+	for i, n := range []string{"pcall", "pdeleg", "pcc", "pdd", "px", "pcd", "pstatic", "pmulti"} {
 		tw.proxy[n] = tw.A.DetAccount("proxy", i)
 	}
 	tw.tracked = append(tw.tracked, tw.actors...)
-	for _, n := range []string{"pcall", "pdeleg", "pcc", "pdd", "pcd"} {
+	for _, n := range []string{"pcall", "pdeleg", "pcc", "pdd", "pcd", "pmulti"} {
 		tw.tracked = append(tw.tracked, tw.proxy[n])
 	}
 	for _, c := range []*Chain{tw.A, tw.B} {
@@ -706,29 +705,18 @@ func (tw *twin) coqValOpt(c *Chain, s string) string {
 	return "(Some " + zOf(bz) + ")"
 }
 
-// independent EIP-712 recovery: go-ethereum's own TypedDataAndHash + SigToPub
-func (tw *twin) recoverSigner(msg eip712.TypedMessage, r, s [32]byte, v uint8) string {
-	var hash []byte
-	if p := CatchPanic(func() {
-		h, _, err := apitypes.TypedDataAndHash(msg.ToTypedData(tw.chainID))
-		if err == nil {
-			hash = h
-		}
-	}); p != nil || hash == nil {
+// independent EIP-712 recovery (hx/c11_eip712.go: own typed data, go-ethereum's TypedDataAndHash + SigToPub), always for
+// THIS chain's id
+func (tw *twin) recoveredCoq(td apitypes.TypedData, r, s [32]byte, v uint8) string {
+	a := C11RecoverTypedData(td, r, s, v)
+	if a == nil {
 		return "None"
 	}
-	sig := make([]byte, 65)
-	copy(sig, r[:])
-	copy(sig[32:], s[:])
-	sig[64] = v
-	if v == 27 || v == 28 {
-		sig[64] = v - 27
-	}
-	pub, err := crypto.SigToPub(hash, sig)
-	if err != nil {
-		return "None"
-	}
-	return "(Some " + zOf(crypto.PubkeyToAddress(*pub).Bytes()) + ")"
+	return "(Some " + zOf(a.Bytes()) + ")"
+}
+
+func (tw *twin) stakingTD(m cpcabi.StakingMessage, chain *big.Int) apitypes.TypedData {
+	return C11StakingTypedData(tw.cpc, chain, m.Action, m.Delegator, m.Validator, m.Amount, m.Denom, m.OldValidator)
 }
 
 func (tw *twin) genOp(r *Rng, caller *itutiltypes.TestAccount) cpcOp {
@@ -880,7 +868,20 @@ func (tw *twin) genSignedStaking(r *Rng, caller *itutiltypes.TestAccount) cpcOp 
 	default:
 		msg.Validator, class = "evmvaloper1xyz", "bad-validator"
 	}
-	rr, ss, vv, err := SignTyped(signer, msg, chain)
+	if class != "valid" && class != "bad-validator" && r.Chance(60) {
+		// a forged or malformed message that would otherwise be perfectly executable: if it is accepted, it shows
+		b := tw.bondedVals()
+		v, vc = common.BytesToAddress(b[r.Intn(len(b))].addr), "bonded"
+		a, ac = new(big.Int).Add(new(big.Int).Mod(r.BigBits(70), e18(9)), big.NewInt(1)), "random"
+		msg.Validator, msg.Amount = tw.valStr(B, v), a
+		if msg.Action != "Steal" {
+			msg.Action = cpcabi.StakingMessageActionDelegate
+		}
+		if class != "bad-old-validator" {
+			msg.OldValidator = "-"
+		}
+	}
+	rr, ss, vv, err := C11SignTypedData(signer, tw.stakingTD(msg, chain))
 	require.NoError(tw.t, err)
 	if class == "garbage-signature" {
 		copy(rr[:], r.BigBits(250).FillBytes(make([]byte, 32)))
@@ -903,7 +904,7 @@ func (tw *twin) genSignedStaking(r *Rng, caller *itutiltypes.TestAccount) cpcOp 
 	m := msg
 	op := cpcOp{method: "delegateByActionMessage", class: class + "/" + msg.Action + "/" + vc + "/" + ac,
 		payload: tw.pack("delegateByActionMessage", msg, rr, ss, vv),
-		coqCall: fmt.Sprintf("CDelegateByMessage %s 0", coqMsg), rec: tw.recoverSigner(msg, rr, ss, vv), signedDelegator: &msg.Delegator}
+		coqCall: fmt.Sprintf("CDelegateByMessage %s 0", coqMsg), rec: tw.recoveredCoq(tw.stakingTD(msg, tw.chainID), rr, ss, vv), signedDelegator: &msg.Delegator}
 	native := func(del sdk.AccAddress) []sdk.Msg {
 		switch m.Action {
 		case cpcabi.StakingMessageActionDelegate:
@@ -955,7 +956,7 @@ func (tw *twin) genSignedWithdraw(r *Rng, caller *itutiltypes.TestAccount) cpcOp
 	default:
 		msg.FromValidator, fromC, class = "everything", "FromOther", "bad-from-validator"
 	}
-	rr, ss, vv, err := SignTyped(signer, msg, chain)
+	rr, ss, vv, err := C11SignTypedData(signer, C11WithdrawTypedData(tw.cpc, chain, msg.Delegator, msg.FromValidator))
 	require.NoError(tw.t, err)
 	if class == "garbage-signature" {
 		copy(ss[:], r.BigBits(250).FillBytes(make([]byte, 32)))
@@ -966,7 +967,7 @@ func (tw *twin) genSignedWithdraw(r *Rng, caller *itutiltypes.TestAccount) cpcOp
 	m := msg
 	op := cpcOp{method: "withdrawRewardsByMessage", class: class + "/" + strings.SplitN(fromC, " ", 2)[0],
 		payload: tw.pack("withdrawRewardsByMessage", msg, rr, ss, vv),
-		coqCall: fmt.Sprintf("CWithdrawRewardsByMessage (WithdrawMessage %s %s) 0", zOf(msg.Delegator.Bytes()), fromC), rec: tw.recoverSigner(msg, rr, ss, vv), signedDelegator: &msg.Delegator}
+		coqCall: fmt.Sprintf("CWithdrawRewardsByMessage (WithdrawMessage %s %s) 0", zOf(msg.Delegator.Bytes()), fromC), rec: tw.recoveredCoq(C11WithdrawTypedData(tw.cpc, tw.chainID, msg.Delegator, msg.FromValidator), rr, ss, vv), signedDelegator: &msg.Delegator}
 	rec := op.rec
 	op.translate = func(dry sdk.Context, c sdk.AccAddress) ([]scriptEntry, bool) {
 		if fromC == "FromOther" || !bytes.Equal(m.Delegator.Bytes(), c.Bytes()) || rec != "(Some "+zOf(m.Delegator.Bytes())+")" {
@@ -1020,6 +1021,7 @@ func TestDriverStaking(t *testing.T) {
 	rng := NewRng(seed)
 	side := NewSidecar("staking", seed,
 		"case = one staking-precompile call on chain A (EOA or contract caller, 7 call paths over CALL/DELEGATECALL/CALLCODE) with the native modules' behaviour on twin chain B as the model's oracle, "+
+			"or one transaction whose contract makes 2..3 precompile calls in a row (KMulti: every call with its own native oracle, the receipt's logs as a whole), "+
 			"or one view call against native queries; sequences interleave native messages, reward accrual blocks and time jumps on both chains; "+
 			"non-trivial = a call that reached the native message servers (non-empty translation) or a signed call of a non-valid class, distinct by path+method+class+outcome")
 	cases := NewCases(dir, "From Coq Require Import List ZArith Bool.\nFrom Evm Require Import StakingCpc CorrStakingCpc.", "sk_mismatches")
@@ -1069,8 +1071,11 @@ func TestDriverStaking(t *testing.T) {
 				if codes[0] != codes[1] {
 					side.Hit("C11/staking/twin-harness-native-message-diverged", "the same native message had different outcomes on the twin chains", nil)
 				}
-			default:
+			case k < 88:
 				tw.cpcStep(r, side, cases, &idx, seq, step)
+			default: // several precompile calls in one transaction
+				tw.multiStep(r, side, cases, &idx, seq, step)
+				side.Count("step:multi-call-transaction")
 			}
 
 			tw.debugStores(fmt.Sprintf("seq %d step %d kind %d", seq, step, k))
